@@ -43,6 +43,8 @@ DEFAULT_CFG = {
     'dead_frac': 0.0,          # fraction of unread wires left without an Output (dead logic)
     'const_reg_prob': 0.0,     # registers whose next value is a constant (directly or chained)
     'const_bias': 0.0,         # extra probability that an operand is a constant
+    'awk_limit': None,         # e.g. {'i': 1, 'o': 1, 'r': 1}: awkward names per wire class
+    'awk_exclude': (),
 }
 
 
@@ -99,15 +101,21 @@ class _G(object):
         self.pool = pool
         self.trunc = cfg['trunc'] if cfg['trunc'] is not None else (rng.random() < 0.5)
         self.awk = list(AWKWARD_NAMES)
+        self.awk_used = {}
         rng.shuffle(self.awk)
 
     # -- names ------------------------------------------------------------------------
     def name(self, prefix, user_visible=False):
+        if prefix == 't' and self.cfg.get('awk_internal') and self.rng.random() < self.cfg['awk_internal']:
+            user_visible = True
         if self.cfg['names'] == 'awkward' and user_visible and self.awk and self.rng.random() < 0.5:
-            n = self.awk.pop()
-            if n not in self.names:
-                self.names.add(n)
-                return n
+            lim = self.cfg['awk_limit']
+            if lim is None or self.awk_used.get(prefix, 0) < lim.get(prefix, 1 << 30):
+                n = self.awk.pop()
+                if n not in self.names and n not in self.cfg['awk_exclude']:
+                    self.names.add(n)
+                    self.awk_used[prefix] = self.awk_used.get(prefix, 0) + 1
+                    return n
         i = self.counter.get(prefix, 0)
         while True:
             n = '%s%d' % (prefix, i)
